@@ -488,11 +488,12 @@ Pack(sec, g) ==
         \* from the changes altogether: C07 does not constrain what an unreachable object reads as)
         /\ res' = [call |-> "pack", out |-> r.out, T |-> T, gc |-> g,
                     cause |-> IF ownGc /\ g # "false" /\ r.out = "KeyError" THEN "pack-gc-ignores-base" ELSE "none",
-                    stale |-> {q \in Oids \X Bounds(Cat(layers)) :
+                    \* (TLCEval: TLC must not keep the set as an unevaluated filter inside the state)
+                    stale |-> TLCEval({q \in Oids \X Bounds(Cat(layers)) :
                                  LET a == QLoadBefore(layers, inst, Top, q[1], q[2])
                                      b == QLoadBefore(layers', inst', Top, q[1], q[2])
                                  IN /\ Idx(r.h, q[1]) # {} /\ b.k = "rev"
-                                    /\ ~(a.k = "rev" /\ a.d = b.d /\ a.serial = b.serial)}]
+                                    /\ ~(a.k = "rev" /\ a.d = b.d /\ a.serial = b.serial)})]
   /\ obs' = ObsOf(layers', inst') /\ dev' = DevOf(layers', inst', obs')
   /\ UNCHANGED <<txn, clock, begun, noids>>
 
